@@ -1,4 +1,4 @@
 import PyodaModel.DriverLoop
-import PyodaModel.Zone
+import PyodaModel.ZoneOps
 
-def main : IO Unit := Pyoda.runDriver [Pyoda.Zone.handle]
+def main : IO Unit := Pyoda.runDriverS (∅ : Pyoda.Zone.Registry) Pyoda.Zone.step
